@@ -248,6 +248,19 @@ def run(run: Run):
         m.add_contract(c)
     for c in cs:
         run.verify(m, c)
+    # the caller (third pass of API.build) hands the traversal the resources of the *whole* API and starts it from every target proto
+    import ast as _ast
+    from vf.core import find_def
+    fdef, h = find_def("gapic/schema/api.py", "API.build")
+    src = _ast.unparse(fdef)
+    run.functions.append({"qualname": "API.build (selective-generation pass)", "source": "gapic/schema/api.py", "sha256_16": h, "obligations": "AST patterns"})
+    g = "selective.build:third-pass"
+    run.table("selective.build:resource-map-spans-all-protos", "all_resource_messages = collections.ChainMap(*(proto.resource_messages for proto in protos.values()))" in src and
+              "resource_messages=all_resource_messages" in src, group=g)
+    run.table("selective.build:allowlist-built-from-every-target-proto-before-pruning",
+              "for proto in api.protos.values():\n                    proto.add_to_address_allowlist(address_allowlist=address_allowlist, method_allowlist=selective_gapic_methods" in src
+              and src.index("proto.add_to_address_allowlist(") < src.index("proto.prune_messages_for_selective_generation("), group=g)
+    run.table("selective.build:dependencies-copied-unchanged", "new_all_protos = {k: v for k, v in api.all_protos.items() if k not in api.protos}" in src, group=g)
     run.not_decided.append("termination of the traversal (finite-graph argument over the visited set)")
     run.assume("Address objects are compared by value; the model identifies equal addresses (one wrapper per address)",
                "the successor relation is *defined* from the schema (defines_succ_* preconditions are definitional, not checked against a caller)")
